@@ -3,6 +3,7 @@ package sim
 import (
 	"fmt"
 	"sort"
+	"strings"
 
 	"verifharness/client"
 	"verifharness/lnmodel"
@@ -482,5 +483,55 @@ func (s *Sim) DirectedLockedMelt(success, poll bool) {
 	s.done("ln-resolve")
 	if poll {
 		s.PollMelt(q)
+	}
+}
+
+// DirectedOwnInvoice: the mint's own invoice, as issued and in its upper-case spelling (the same
+// invoice), asked for a plain and for a multi-path (partial) melt quote; what is accepted is melted and
+// the mint quote behind the invoice is then minted. Whatever the spelling, the quote behind the invoice
+// is worth what was paid for it: if it turns PAID after a melt of less than its amount, that is reported
+// as accepted / internal-settlement-for-less-than-mint-quote (after the fact, from the stored state).
+func (s *Sim) DirectedOwnInvoice(mpp bool) {
+	for _, upper := range []bool{false, true} {
+		for _, partial := range []bool{false, true} {
+			if partial && !mpp {
+				continue
+			}
+			mq := s.NewMintQuote(40, false)
+			if mq == nil {
+				continue
+			}
+			inv := s.W.Invoice(mq.Hash)
+			req := inv.Bolt11
+			if upper {
+				req = strings.ToUpper(req)
+			}
+			var part uint64
+			if partial {
+				part = 7000
+			}
+			q, err := s.E.RequestMeltQuote(req, part)
+			s.logf("directed: meltquote on own invoice of %s upper=%v partial=%v -> %v", mq.Id[:8], upper, partial, errStr(err))
+			if err != nil {
+				s.done("meltquote-refused")
+				continue
+			}
+			lq := &MeltQ{Id: q.Id, Hash: mq.Hash, Amount: q.Amount, Reserve: q.FeeReserve, InvMsat: inv.AmountMsat, State: "UNPAID", Internal: mq, Mpp: partial, PartMsat: part}
+			s.MeltQs = append(s.MeltQs, lq)
+			s.done("meltquote-own-invoice")
+			in := s.pickFor(lq.Amount + lq.Reserve)
+			if in == nil {
+				s.Fund(lq.Amount + lq.Reserve + 8)
+				in = s.pickFor(lq.Amount + lq.Reserve)
+			}
+			if in == nil {
+				continue
+			}
+			s.Melt(lq, in, Proofs(in), lnmodel.PayPlan{}, "")
+			if st, err := s.E.MintQuoteDBState(mq.Id); err == nil && (st == "PAID" || st == "ISSUED") && lq.Amount < mq.Amount {
+				s.mismatch("meltquote", "accepted", "internal-settlement-for-less-than-mint-quote", fmt.Sprintf("mint quote %s of %d sat is %s after a melt of %d sat on its own invoice (upper-case spelling %v, partial %v)", mq.Id[:8], mq.Amount, st, lq.Amount, upper, partial))
+			}
+			s.Mint(mq, "exact")
+		}
 	}
 }
